@@ -157,4 +157,108 @@ def decodeRangeL (s : List Char) : Option (List (Int × DayTimes)) :=
 
 def decodeRange (s : String) : Option (List (Int × DayTimes)) := decodeRangeL s.toList
 
+/-! the canonical form (`renderRangeCanon`: compact, object keys in byte order - what re-serialising the
+    decoded JSON value gives); the check compares canonical forms when the bytes of two documents differ -/
+
+/-- `{"Err":null}` or `{"Ok":{"extreme":b,"time":"hh:mm:ss"}}` -/
+def decodePTCanon (s : List Char) : Option (Option PT × List Char) :=
+  match stripPrefix? "{\"Err\":null}".toList s with
+  | some r => some (none, r)
+  | none =>
+    match stripPrefix? "{\"Ok\":{\"extreme\":".toList s with
+    | none => none
+    | some s =>
+    match decodeBool s with
+    | none => none
+    | some (e, s) =>
+    match stripPrefix? ",\"time\":\"".toList s with
+    | none => none
+    | some s =>
+    match takeNum 2 s with
+    | none => none
+    | some (h, s) =>
+    match stripPrefix? [':'] s with
+    | none => none
+    | some s =>
+    match takeNum 2 s with
+    | none => none
+    | some (m, s) =>
+    match stripPrefix? [':'] s with
+    | none => none
+    | some s =>
+    match takeNum 2 s with
+    | none => none
+    | some (sec, s) =>
+    match stripPrefix? "\"}}".toList s with
+    | none => none
+    | some s => some (some ⟨⟨h, m, sec⟩, e⟩, s)
+
+def decodeMemberCanon (key : String) (s : List Char) : Option (Option PT × List Char) :=
+  match stripPrefix? key.toList s with
+  | none => none
+  | some s => decodePTCanon s
+
+/-- the seven members in byte order of their names -/
+def decodeDayCanon (s : List Char) : Option (DayTimes × List Char) :=
+  match decodeMemberCanon "{\"Asr\":" s with
+  | none => none
+  | some (a, s) =>
+  match decodeMemberCanon ",\"Dhuhr\":" s with
+  | none => none
+  | some (d, s) =>
+  match decodeMemberCanon ",\"Fajr\":" s with
+  | none => none
+  | some (f, s) =>
+  match decodeMemberCanon ",\"Imsaak\":" s with
+  | none => none
+  | some (im, s) =>
+  match decodeMemberCanon ",\"Isha\":" s with
+  | none => none
+  | some (i, s) =>
+  match decodeMemberCanon ",\"Maghrib\":" s with
+  | none => none
+  | some (m, s) =>
+  match decodeMemberCanon ",\"Shurooq\":" s with
+  | none => none
+  | some (sh, s) =>
+  match stripPrefix? ['}'] s with
+  | none => none
+  | some s => some (⟨im, f, sh, d, a, m, i⟩, s)
+
+def decodeEntryCanon (s : List Char) : Option ((Int × DayTimes) × List Char) :=
+  match decodeDate s with
+  | none => none
+  | some (rd, s) =>
+  match stripPrefix? [':'] s with
+  | none => none
+  | some s =>
+  match decodeDayCanon s with
+  | none => none
+  | some (d, s) => some ((rd, d), s)
+
+def decodeEntriesCanon : Nat → List Char → Option (List (Int × DayTimes) × List Char)
+  | 0, _ => none
+  | fuel + 1, s =>
+    match decodeEntryCanon s with
+    | none => none
+    | some (e, s) =>
+      match s with
+      | ',' :: s' =>
+        match decodeEntriesCanon fuel s' with
+        | none => none
+        | some (rest, s'') => some (e :: rest, s'')
+      | _ => some ([e], s)
+
+def decodeRangeCanonL (s : List Char) : Option (List (Int × DayTimes)) :=
+  match stripPrefix? ['{'] s with
+  | none => none
+  | some s' =>
+    if s' = ['}'] then some []
+    else
+      match decodeEntriesCanon s'.length s' with
+      | none => none
+      | some (l, r) => if r = ['}'] then some l else none
+
+def decodeRangeCanon (s : String) : Option (List (Int × DayTimes)) := decodeRangeCanonL s.toList
+
 end IPT
